@@ -331,6 +331,18 @@ impl<'a> Chk<'a> {
                             self.cmp(&c.ty, &m.2, &format!("{ctx}>member"));
                         }
                     }
+                    if has_groups {
+                        // JER does not see version brackets: the components of a group are members of the object itself.  The
+                        // backend nests them in one member per group; that member must then at least be optional, like the group
+                        let flat = got_names == want_names;
+                        if !flat {
+                            for m in members.iter().filter(|m| m.0.starts_with("ext_group_")) {
+                                if !m.1 {
+                                    self.d(format!("ts|ctx={ctx}|decl=object|kind=group-member-required"), format!("member {} (an extension addition group) has no `?`", m.0));
+                                }
+                            }
+                        }
+                    }
                     let want_index = b.has_marker() || self.implied;
                     if *index != want_index {
                         self.d(format!("ts|ctx={ctx}|kind=index|marker={}|implied={}|got={index}", b.has_marker(), self.implied), "index signature".into());
